@@ -99,7 +99,24 @@ theorem metadata_renumbered {β : Type} (md : List (Option (List (Nat × β)))) 
     (c + offsets.getD k 0, v) ∈ mergeMetadata md offsets :=
   Lemmas.metadata_renumbered md offsets k l hk hlen c v hcv
 
+/-- Renumbered per-cluster metadata with the merger's own offsets point back to the originating
+probe and original id: every merged row (K, v) comes from exactly one probe k and original id c
+with K = c + offset_k, the probe table sends K to k, every row of an id in the probe's range is
+kept with its value, and — when each probe's file has one row per id — no two merged rows share a
+key (nothing is overwritten in the merged dictionary). -/
+theorem metadata_points_back {β : Type} (md : List (Option (List (Nat × β)))) (ids : List (List Nat))
+    (hlen : md.length = ids.length) :
+    (∀ K v, (K, v) ∈ mergeClusterData md ids →
+      ∃ k c l, md[k]? = some (some l) ∧ (c, v) ∈ l ∧ c ≤ (ids.getD k []).foldl max 0 ∧
+        K = c + (idOffsets ids).getD k 0 ∧ (clusterProbes ids).getD K ids.length = k) ∧
+    (∀ k l c v, md[k]? = some (some l) → (c, v) ∈ l → c ≤ (ids.getD k []).foldl max 0 →
+      (c + (idOffsets ids).getD k 0, v) ∈ mergeClusterData md ids) ∧
+    ((∀ l, some l ∈ md → (l.map (·.1)).Nodup) → ((mergeClusterData md ids).map (·.1)).Nodup) :=
+  Lemmas.metadata_points_back md ids hlen
+
 /-! Non-vacuity -/
+example : mergeClusterData [some [(0, "good"), (2, "mua")], some [(0, "good")]] [[0, 1, 1], [0, 0]]
+    = [(0, "good"), (2, "good")] := by decide     -- row 2 of probe 0 (no spike, beyond its id range) is not renumbered onto probe 1's id 0
 example : spikeOrder [[3, 5, 5], [1, 5], [5, 9]] = [3, 0, 1, 2, 4, 5, 6] := by decide
 example : mergedOrigins [[3, 5, 5], [1, 5], [5, 9]] = [(1,0), (0,0), (0,1), (0,2), (1,1), (2,0), (2,1)] := by decide
 example : mergedIds [[3, 5, 5], [1, 5], [5, 9]] [[0, 2, 2], [4, 0], [1, 1]] = [7, 0, 2, 2, 3, 9, 9] := by decide
